@@ -508,6 +508,7 @@ func TestC20(t *testing.T) {
 		}
 	}
 	runStateful(c, sameDir)
+	runMarkers(c)
 }
 
 // multiMeta serialises what the placement oracle needs for a replay.
@@ -532,6 +533,10 @@ func multiMeta(m *multiCase) []byte {
 }
 
 func evalC20Replay(r *core.Replay) (bool, string, error) {
+	if r.Check == "markers" {
+		failed, msg, _, err := evalMarkers(r.Case)
+		return failed, msg, err
+	}
 	// rebuild a minimal multiCase from the stored metadata
 	var mm struct {
 		Names []struct {
